@@ -9,15 +9,25 @@ use crate::util::*;
 use serde_json::{json, Value};
 
 pub fn meta(m: &mut PropMeta) {
-    m.rule = "ALL directed containment graphs (self-loops allowed) on 1..3 nodes x every struct/enum kind assignment x each of 7 edge routings (direct, optional, sequence element, dictionary key, dictionary value, result success, result failure) applied uniformly, and per edge on 2 nodes; all 2^16 graphs on 4 nodes with kinds and routings assigned by a fixed rotation (thorough: x every uniform routing); nodes spread over one and two files; ALL alias graphs on 4 aliases (each alias targets another alias, a primitive, or Sequence<alias>: 9^4); ALL inheritance graphs on 4 interfaces (each lists any subset of the four, itself included, as bases: 2^16, incl. diamonds); plus ring / complete / layered families with 10 nodes. Oracle (reachability / SCC): E032 is reported iff the containment graph has a cycle; every node on a cycle is named in a reported chain; every reported chain 'A -> B -> A' is a closed walk along real field edges and its notes name real fields; no E032 for acyclic graphs; alias graphs: rejected iff an alias reaches itself, otherwise no error; inheritance graphs: rejected iff an interface reaches itself, acyclic lattices accepted; always a verdict (no crash/hang). non-trivial = the graph has an edge; distinct = distinct rendered programs.";
+    m.rule = "ALL directed containment graphs (self-loops allowed) on 1..3 nodes x every struct/enum kind assignment x each of 9 edge routings (direct, optional, sequence element, dictionary key, dictionary value, result success, result failure, tagged optional member, tagged optional sequence member) applied uniformly, and per edge on 2 nodes; all 2^16 graphs on 4 nodes with kinds and routings assigned by a fixed rotation (thorough: x every uniform routing); nodes spread over one and two files; ALL alias graphs on 4 aliases (each alias targets another alias, a primitive, or Sequence<alias>: 9^4); ALL inheritance graphs on 4 interfaces (each lists any subset of the four, itself included, as bases: 2^16, incl. diamonds); plus ring / complete / layered families with 10 nodes. Oracle (reachability / SCC): E032 is reported iff the containment graph has a cycle; every node on a cycle is named in a reported chain; every reported chain 'A -> B -> A' is a closed walk along real field edges and its notes name real fields; no E032 for acyclic graphs; alias graphs: rejected iff an alias reaches itself, otherwise no error; inheritance graphs: rejected iff an interface reaches itself, acyclic lattices accepted; always a verdict (no crash/hang). non-trivial = the graph has an edge; distinct = distinct rendered programs.";
     m.explanation = "complete enumeration of small graphs rendered as Slice programs; graph-theoretic oracle";
-    m.quick_bound = "containment: all graphs <= 3 nodes x kinds x 7 routings, all 4-node graphs (rotating kinds/routings); aliases: 9^4; inheritance: 2^16";
+    m.quick_bound = "containment: all graphs <= 3 nodes x kinds x 9 routings, all 4-node graphs (rotating kinds/routings); aliases: 9^4; inheritance: 2^16";
     m.thorough_bound = "as quick, 4-node containment graphs x every uniform routing";
 }
 
-const ROUTINGS: usize = 7;
+const ROUTINGS: usize = 9;
+/// the member `f<j>` of a struct or enumerator that leads to type `t` by routing `r` (7, 8: TAGGED members)
+fn member(r: usize, j: usize, t: &str) -> String {
+    if r >= 7 {
+        format!("tag({}) f{j}: {}", j + 1, route(r, t))
+    } else {
+        format!("f{j}: {}", route(r, t))
+    }
+}
 fn route(r: usize, t: &str) -> String {
     match r {
+        7 => format!("{t}?"),
+        8 => format!("Sequence<{t}>?"),
         0 => t.to_string(),
         1 => format!("{t}?"),
         2 => format!("Sequence<{t}>"),
@@ -64,11 +74,11 @@ impl GraphCase {
             let mut members = vec![];
             for j in 0..self.n {
                 if self.adj[i][j] {
-                    let t = route(self.routing[i][j], &Self::name(j));
+                    let m = member(self.routing[i][j], j, &Self::name(j));
                     if self.is_enum[i] {
-                        members.push(format!("V{j}(f{j}: {t})"));
+                        members.push(format!("V{j}({m})"));
                     } else {
-                        members.push(format!("f{j}: {t}"));
+                        members.push(m);
                     }
                 }
             }
@@ -185,7 +195,7 @@ impl SmallGraphs {
 }
 impl Family for SmallGraphs {
     fn name(&self) -> String {
-        format!("containment/all graphs on {} nodes x kinds x 7 uniform routings x 1-2 files", self.n)
+        format!("containment/all graphs on {} nodes x kinds x 9 uniform routings (direct, optional, sequence, dictionary key / value, result success / failure, tagged optional, tagged optional sequence) x 1-2 files", self.n)
     }
     fn len(&self) -> u64 {
         (1u64 << (self.n * self.n)) * (1 << self.n) * ROUTINGS as u64 * if self.n > 1 { 2 } else { 1 }
@@ -331,7 +341,7 @@ impl TenNodes {
 }
 impl Family for TenNodes {
     fn name(&self) -> String {
-        "containment/10-node ring, complete, layered DAG, layered with back edge, chain, two rings x 7 routings".into()
+        "containment/10-node ring, complete, layered DAG, layered with back edge, chain, two rings x 9 routings".into()
     }
     fn len(&self) -> u64 {
         6 * ROUTINGS as u64
@@ -584,12 +594,18 @@ impl InheritanceGraphs {
 
 /// All 2^16 containment graphs on the four types M1::P, M1::Q, M2::P, M2::Q (two modules, the same two names in
 /// each; references inside a module are written bare, across modules qualified), kinds and routings by rotation.
-pub struct TwoModules;
+pub struct TwoModules {
+    /// number of routing modes: mode 0 = per-edge rotation, mode k = every edge through TWO_MODULE_UNIFORM[k - 1]
+    pub modes: u64,
+}
+/// (uniform routings: like-named types of the two modules then appear in wrappers that print alike)
+const TWO_MODULE_UNIFORM: [usize; 7] = [2, 4, 5, 6, 3, 1, 0];
 impl TwoModules {
     fn scoped(i: usize) -> String {
         format!("M{}::{}", i / 2 + 1, ["P", "Q"][i % 2])
     }
-    fn render(g: u64) -> Vec<String> {
+    fn render(idx: u64) -> Vec<String> {
+        let (g, mode) = (idx % 65536, (idx / 65536) as usize);
         let mut files = vec![String::from("module M1\n"), String::from("module M2\n")];
         for i in 0..4 {
             let is_enum = ((g >> (i + 5)) ^ (g >> (3 * i))) & 1 == 1;
@@ -597,8 +613,8 @@ impl TwoModules {
             for j in 0..4 {
                 if (g >> (i * 4 + j)) & 1 == 1 {
                     let name = if i / 2 == j / 2 { ["P", "Q"][j % 2].to_string() } else { Self::scoped(j) };
-                    let t = route(((g as usize) + i * 3 + j) % ROUTINGS, &name);
-                    members.push(if is_enum { format!("V{j}(f{j}: {t})") } else { format!("f{j}: {t}") });
+                    let m = member(if mode == 0 { ((g as usize) + i * 3 + j) % ROUTINGS } else { TWO_MODULE_UNIFORM[mode - 1] }, j, &name);
+                    members.push(if is_enum { format!("V{j}({m})") } else { m });
                 }
             }
             let id = ["P", "Q"][i % 2];
@@ -617,10 +633,10 @@ impl TwoModules {
 }
 impl Family for TwoModules {
     fn name(&self) -> String {
-        "containment/all 65536 graphs on M1::P, M1::Q, M2::P, M2::Q (same names in two modules), kinds and per-edge routings by fixed rotation".into()
+        format!("containment/all 65536 graphs on M1::P, M1::Q, M2::P, M2::Q (same names in two modules), kinds by fixed rotation x {} routing modes (per-edge rotation; every edge through the same wrapper: Sequence, Dictionary value, Result success, Result failure, ...)", self.modes)
     }
     fn len(&self) -> u64 {
-        65536
+        65536 * self.modes
     }
     fn describe(&self, idx: u64) -> Value {
         json!({"files": Self::render(idx)})
@@ -633,7 +649,7 @@ impl Family for TwoModules {
         let mut adj = vec![vec![false; 4]; 4];
         for i in 0..4 {
             for j in 0..4 {
-                adj[i][j] = (idx >> (i * 4 + j)) & 1 == 1;
+                adj[i][j] = ((idx % 65536) >> (i * 4 + j)) & 1 == 1;
             }
         }
         let r = reach(4, &adj);
@@ -701,7 +717,7 @@ pub fn families(tier: &str) -> Vec<Box<dyn Family>> {
         Box::new(PerEdgeRouting),
         Box::new(SmallGraphs { n: 3 }),
         Box::new(FourNodes { all_routings: !quick }),
-        Box::new(TwoModules),
+        Box::new(TwoModules { modes: if tier == "quick" { 4 } else { 8 } }),
         Box::new(AliasDiamonds),
     ]
 }
